@@ -354,11 +354,14 @@ pub fn routing(run: &JobRun) -> Result<RoutingStats, String> {
     // those blocks only the destinations that received traced data count.
     let loop_heads: std::collections::HashSet<u32> =
         run.probe_info.iter().filter(|p| p.1 == "loop-in").map(|p| p.0).collect();
+    // the blocks that hold the head of a loop (whatever operator of theirs stamps last)
+    let loop_head_blocks: std::collections::HashSet<u64> =
+        run.probes.iter().filter(|e| loop_heads.contains(&e.probe)).map(|e| e.loc.block_id).collect();
     let mut downstream: HashMap<u64, BTreeMap<u64, ()>> = HashMap::new();
     for s in &run.sends {
-        if let Some(probe) = traced_blocks.get(&s.from.block_id) {
+        if traced_blocks.contains_key(&s.from.block_id) {
             let traced_data = s.msg.iter().any(|el| is_data(el.kind) && stamped.get(&el.digest).map_or(false, |p| p.loc == s.from));
-            if !loop_heads.contains(probe) || traced_data {
+            if !loop_head_blocks.contains(&s.from.block_id) || traced_data {
                 downstream.entry(s.from.block_id).or_default().insert(s.ep.to.block_id, ());
             }
         }
